@@ -79,7 +79,12 @@ pub fn run_cut_x(
       }
       w.log.mark(0, "unsub_call", step as i64);
       in_cut.set(true);
-      w.unsubscribe(0);
+      if use_guard && seed % 2 == 0 {
+        // the guard's scope is left by a panic (caught further up): dropped by the unwinder
+        w.drop_guard_by_unwinding(0);
+      } else {
+        w.unsubscribe(0);
+      }
       in_cut.set(false);
       let ret_seq = w.log.mark(0, "unsub_ret", step as i64);
       info.set(Some(CutInfo { ret_seq, pending_timers, ready_tasks, step, after_terminal }));
@@ -196,6 +201,88 @@ pub fn run(cfg: &Cfg, rep: &mut Report) {
                "pending_timers_at_cut": ci.pending_timers, "ready_tasks_at_cut": ci.ready_tasks,
                "subscriber_saw": jn(&notes_of(&run.evs, 1))})
       });
+    }
+  }
+
+  // sources that cannot be cancelled: a stage right above the hot source swallows the
+  // unsubscription, so the source keeps pushing INTO the pipeline after unsubscribe() returned.
+  // Only pipelines whose deliveries all pass through a scheduler operator are owed silence then
+  // (with nothing but synchronous stages nobody could stop the items): source . deaf .
+  // [transparent] . delay|observe_on . [any single-input operators]
+  {
+    use crate::ast::*;
+    use crate::vtime::MS;
+    let total = cfg.n(60_000, 3_000_000);
+    let mut rng = Rng::new(cfg.seed ^ 0xC02D);
+    for i in 0..total {
+      let mut r = rng.fork();
+      if !cfg.mine(i) {
+        continue;
+      }
+      let id = format!("deaf:{}", i);
+      if !cfg.wants(&id) {
+        continue;
+      }
+      let mut ops = vec![Op::Deaf];
+      if r.chance(1, 2) {
+        ops.push([Op::Map(MapF::Ident), Op::Filter(Pred::True), Op::BoxIt][r.below(3)].clone());
+      }
+      ops.push(match r.below(5) {
+        0 | 1 => Op::ObserveOn,
+        2 => Op::Delay(0),
+        3 => Op::Delay([1u64, 5][r.below(2)]),
+        _ => Op::DelayUs([250, 1500][r.below(2)]),
+      });
+      if r.chance(1, 2) {
+        ops.push(random_single_op(&mut r, 3));
+      }
+      let n_items = 1 + r.below(cfg.n(6, 10));
+      let mut t = 0u64;
+      let gaps = [0u64, 0, 1, 2, 5];
+      let mut acts = vec![];
+      for k in 0..n_items {
+        t += gaps[r.below(gaps.len())] * MS;
+        acts.push(TAct { t, act: Act::In(0, N::Next(V::I(100 + k as i64))) });
+      }
+      // delay forwards an error synchronously (by design: errors are not delayed), so a failing
+      // uncancellable source is only paired with observe_on, which schedules the error too
+      let through_tasks_only = ops.iter().any(|o| matches!(o, Op::ObserveOn));
+      match r.below(3) {
+        0 => {}
+        1 if through_tasks_only => acts.push(TAct { t: t + MS, act: Act::In(0, N::Err(7)) }),
+        _ => acts.push(TAct { t: t + MS, act: Act::In(0, N::Complete) }),
+      }
+      let pipe = Pipe { chain: Chain::new(Src::Hot(0), ops), n_hot: 1, acts, horizon: t + 40 * MS };
+      let flavor = [Flavor::Local, Flavor::Threads, Flavor::LocalPool][r.below(3)];
+      let policy = if r.chance(1, 2) { Policy::Fifo } else { Policy::Any };
+      let late = r.chance(1, 2);
+      let seed = r.next();
+      let use_guard = r.chance(1, 3);
+      let steps = match run_pipe(flavor, &pipe, policy, late, seed, &mut |_, _, _| {}) {
+        Ok(d) => d.steps,
+        Err(_) => continue,
+      };
+      let cut_step = r.below(steps + 1);
+      rep.evaluations += 1;
+      rep.count("cuts_above_a_source_that_cannot_be_cancelled", 1);
+      let (out, info) = run_cut(flavor, &pipe, policy, late, seed, cut_step, use_guard);
+      if let (Ok(run), Some(ci)) = (&out, &info) {
+        rep.events += run.evs.iter().filter(|e| matches!(e.k, K::N(_))).count() as u64;
+        if run.evs.iter().any(|e| e.seq > ci.ret_seq && matches!(e.k, K::Mark("act", _))) {
+          rep.count("deaf_cuts_with_source_events_still_to_come", 1);
+          rep.nontrivial.insert(hash64(&(&pipe, flavor, cut_step, seed, "deaf")));
+        }
+      }
+      if let Some(ev) = late_delivery(&out, &info) {
+        rep.violation(
+          "delivery_after_unsubscribe",
+          &format!("{}[uncancellable source]", locus_of(&pipe.chain)),
+          &id,
+          json!({"chain": pipe.chain.show(), "cut_step": cut_step, "via": if use_guard { "guard drop" } else { "unsubscribe()" },
+                 "late_event": format!("{:?} at vt={}ns", ev.k, ev.vt), "flavor": format!("{:?}", flavor), "policy": format!("{:?}", policy),
+                 "late_schedule": late, "acts": format!("{:?}", pipe.acts)}),
+        );
+      }
     }
   }
 
